@@ -497,6 +497,14 @@ class ImmutableVersion(dns.zone.Version):
         c.seek(target, False)
         left = c.prev()
         assert left is not None
+        if left.value().is_glue():
+            # An occluded name cannot be a bound; the zone cut above it is the
+            # nearest non-occluded predecessor.
+            left_cut, _ = self.delegations.get_delegation(left.key())
+            assert left_cut is not None
+            c.seek(left_cut, False)
+            left = c.prev()
+            assert left is not None
         c.next()  # skip over left
         while True:
             right = c.next()
